@@ -202,3 +202,25 @@ Definition row_has_rule (r : row) : bool :=
                      | _ => true end.
 Definition last_row_has_rule (t : table) : bool :=
   match rev (t_rows t) with r :: _ => row_has_rule r | [] => false end.
+
+(* The domain on which today's library is proved to agree with this interpreter (Props/C06.v):
+   it drops the row the end of the instruction stream closes when that row has neither a CFA
+   rule nor a register rule, and an FDE then starts from the last row the CIE's table kept.
+   cie_domain: the last row of the CIE's table says something.
+   fde_domain: the same for the FDE's last row, and the CIE's initial instructions either end in
+   a row that says something or never create a row. *)
+Definition cie_domain (caf daf : Z) (cis : list instr) : bool :=
+  match cie_final caf daf cis with
+  | Some sc => row_has_rule (cur_row sc)
+  | None => false
+  end.
+Definition fde_domain (caf daf : Z) (cis : list instr) (loc : Z) (fis : list instr) : bool :=
+  match cie_final caf daf cis with
+  | None => false
+  | Some sc =>
+      (row_has_rule (cur_row sc) || match st_rows sc with [] => true | _ => false end)
+      && match cfi_spec_fde caf daf cis loc fis with
+         | Some t => last_row_has_rule t
+         | None => false
+         end
+  end.
